@@ -64,8 +64,8 @@ def run_worker(cfg, args):
 
 
 def show_phists(idxs):
-    if len(idxs) == len(PROD_HISTS):
-        return "*"
+    if {i for i, h in enumerate(PROD_HISTS) if "digest" not in h} <= set(idxs):
+        return "*"          # every history that runs under every protocol
     hs = [PROD_HISTS[i] for i in idxs]
     m = min(len(h) for h in hs)
     return ",".join(">".join(h) for h in hs if len(h) == m)
@@ -95,6 +95,10 @@ class C17(Check):
         + str(len(P.user_flat_entries())) + ") of them with str/int-only fields, 3 old-style classes that implement only the "
         "get_hash/is_equal backend (vf/c17_usercls.py; pickle may refuse these with "
         "NotImplementedError, anything it accepts is held to every invariant), "
+        + str(len([e for e in P.init_false_entries() if e["family"] == "user"]))
+        + " instances of expr_dataclass nodes with a field(init=False) (derived in "
+        "__post_init__ / assigned by a factory / the only field; value equal to and different "
+        "from the default), "
         + str(len([e for e in P.legacy_arity_entries() if e["family"] == "user"]))
         + " instances of old-style init-args classes with 0 (the empty state tuple; also over "
         "a field-less dataclass node and as undecorated subclass), 1, 2 and 3 init args, "
@@ -114,7 +118,9 @@ class C17(Check):
         "shapes under " + str(len(P.NAMINGS)) + " further variable-name alphabets: names "
         "differing only in case, upper before lower case, digits, underscores, prefixes). Producer: "
         "all " + str(len(PROD_HISTS)) + " sequences over {hash, ==, pickle} of length <= "
-        + str(P.PROD_DEPTH) + " ending in pickle, each on a "
+        + str(P.PROD_DEPTH) + " ending in pickle, plus the "
+        + str(sum(1 for h in PROD_HISTS if "digest" in h)) + " such sequences containing "
+        "`digest` (compute the persistent keys first; default protocol only), each on a "
         "fresh object, x protocols 0-5; pickles with identical bytes -- from different producer "
         "histories and from different producer configurations -- are executed once per consumer "
         "process (its behaviour is a function of the bytes) and stand for all their sources. Consumer: every transition of "
@@ -125,7 +131,12 @@ class C17(Check):
         "fresh objects, complete invariant list after each) per distinct pickle; compiled "
         "expressions: " + "%d states / %d transitions" % tuple(
             len(x) for x in P.state_graph(P.COMPILED_CONS_OPS, P.compiled_step)[:2])
-        + " over {unpickle, compile, call on the 3^k box}. "
+        + " over {unpickle, compile, call on the 3^k box}. Under the default protocol the "
+        "built-in and user entries (thorough: all entries) additionally get the "
+        + str(len(P.digest_histories()[0])) + " maximal histories (depth <= "
+        + str(P.DIGEST_DEPTH) + ") of the graph extended by D = compute the persistent key of "
+        "every existing object (pytools' KeyBuilder leaves a non-field attribute on the "
+        "instance), object state (observed, keyed). "
         "Digests (PersistentHashWalkMapper+sha256 and pytools KeyBuilder): producer vs consumer, "
         "unpickled vs local, clone, recomputation, variants. Non-trivial = (pair, pool entry) "
         "with at least one pickle consumed; distinct = distinct (pair, entry).")
@@ -254,8 +265,10 @@ class C17(Check):
             r.count("pairs_with_different_string_hash",
                     sum(1 for p_ in pcs if preps[p_]["str_hash"] != crep["str_hash"]))
         if count_producer:
-            nh = sum(len(P.protocols_for(e, tier, by_name)) for e in mine) * len(PROD_HISTS) \
-                * len(pcs)
+            nd = sum(1 for h in PROD_HISTS if "digest" in h)
+            nh = sum(len(P.protocols_for(e, tier, by_name)) * (len(PROD_HISTS) - nd)
+                     + (0 if e["family"] == "compiled" else len(P.DIGEST_PROTOCOLS) * nd)
+                     for e in mine) * len(pcs)
             r.evals += nh
             r.count("producer_histories", nh)
             if first_shard:
